@@ -2,6 +2,7 @@
 use crate::engine::PropertyMeta;
 
 pub mod c03;
+pub mod c04;
 pub mod c07;
 pub mod c08;
 pub mod c09;
@@ -13,5 +14,5 @@ pub mod c19;
 pub mod c20;
 
 pub fn all() -> Vec<PropertyMeta> {
-    vec![c03::meta(), c07::meta(), c08::meta(), c09::meta(), c12::meta(), c14::meta(), c17::meta(), c18::meta(), c19::meta(), c20::meta()]
+    vec![c03::meta(), c04::meta(), c07::meta(), c08::meta(), c09::meta(), c12::meta(), c14::meta(), c17::meta(), c18::meta(), c19::meta(), c20::meta()]
 }
